@@ -350,13 +350,20 @@ theorem runQ_fresh {σ : Type} (S : Sink σ) : ∀ (core : List CReq) (s : σ) (
       simp only [runQ, idsFresh, Bool.and_eq_true, contains_of_mem]
       exact ⟨⟨⟨resolve_mem ids a ha, resolve_mem ids b hb⟩, resolve_mem ids c hc⟩, ih _ ids hr⟩
 
-/-- `strokeEvents` is `runQ` on the concatenated events (the per-event latch check only decides
-how many events are consumed). -/
+/-- `runQ` over a concatenation: stop in the first part if it refuses, else continue. -/
 theorem runQ_append {σ : Type} (S : Sink σ) : ∀ (a b : List CReq) (s : σ) (ids : List Nat),
     (runQ S (a ++ b) s ids).calls =
       (match (runQ S a s ids).err with
        | some _ => (runQ S a s ids).calls
-       | none => (runQ S a s ids).calls ++ (runQ S b (runQ S a s ids).st (runQ S a s ids).ids).calls) := by
+       | none => (runQ S a s ids).calls ++ (runQ S b (runQ S a s ids).st (runQ S a s ids).ids).calls) ∧
+    (runQ S (a ++ b) s ids).err =
+      (match (runQ S a s ids).err with
+       | some e => some e
+       | none => (runQ S b (runQ S a s ids).st (runQ S a s ids).ids).err) ∧
+    (runQ S (a ++ b) s ids).st =
+      (match (runQ S a s ids).err with
+       | some _ => (runQ S a s ids).st
+       | none => (runQ S b (runQ S a s ids).st (runQ S a s ids).ids).st) := by
   intro a
   induction a with
   | nil => intro b s ids; simp [runQ]
@@ -366,27 +373,39 @@ theorem runQ_append {σ : Type} (S : Sink σ) : ∀ (a b : List CReq) (s : σ) (
     | v p =>
       rcases hv : S.vertex s p with ⟨s', (i | e)⟩
       · simp only [List.cons_append, runQ, hv]
-        rw [ih b s' (ids ++ [i])]
-        split <;> simp
+        obtain ⟨h1, h2, h3⟩ := ih b s' (ids ++ [i])
+        rw [h1, h2, h3]
+        cases (runQ S rest s' (ids ++ [i])).err <;> simp
       · simp [runQ, hv]
     | t x y z =>
       simp only [List.cons_append, runQ]
-      rw [ih b _ ids]
-      split <;> simp
+      obtain ⟨h1, h2, h3⟩ := ih b (S.tri s (resolve ids x) (resolve ids y) (resolve ids z)) ids
+      rw [h1, h2, h3]
+      cases (runQ S rest (S.tri s (resolve ids x) (resolve ids y) (resolve ids z)) ids).err <;> simp
 
-theorem strokeEvents_calls_eq {σ : Type} (S : Sink σ) : ∀ (evs : List (List CReq)) (s : σ) (ids : List Nat),
-    (strokeEvents S evs s ids).calls = (runQ S evs.flatten s ids).calls := by
+/-- `strokeEvents` is `runQ` on the concatenated events (the per-event latch check only decides
+how many events are consumed). -/
+theorem strokeEvents_eq {σ : Type} (S : Sink σ) : ∀ (evs : List (List CReq)) (s : σ) (ids : List Nat),
+    (strokeEvents S evs s ids).calls = (runQ S evs.flatten s ids).calls ∧
+    (strokeEvents S evs s ids).err = (runQ S evs.flatten s ids).err ∧
+    (strokeEvents S evs s ids).st = (runQ S evs.flatten s ids).st := by
   intro evs
   induction evs with
   | nil => intro s ids; simp [strokeEvents, runQ]
   | cons ev rest ih =>
     intro s ids
-    rw [List.flatten_cons, runQ_append]
+    obtain ⟨h1, h2, h3⟩ := runQ_append S ev rest.flatten s ids
+    rw [List.flatten_cons, h1, h2, h3]
     unfold strokeEvents
     dsimp only
     cases hx : (runQ S ev s ids).err with
     | some e => simp
-    | none => simp [ih]
+    | none =>
+      obtain ⟨i1, i2, i3⟩ := ih (runQ S ev s ids).st (runQ S ev s ids).ids
+      simp [i1, i2, i3]
+
+theorem strokeEvents_calls_eq {σ : Type} (S : Sink σ) (evs : List (List CReq)) (s : σ) (ids : List Nat) :
+    (strokeEvents S evs s ids).calls = (runQ S evs.flatten s ids).calls := (strokeEvents_eq S evs s ids).1
 
 theorem strokeEvents_fresh {σ : Type} (S : Sink σ) (evs : List (List CReq)) (s : σ) (ids : List Nat)
     (h : wellScoped ids.length evs.flatten = true) : idsFresh ids (strokeEvents S evs s ids).calls = true := by
